@@ -27,6 +27,7 @@ func RunHistory(dir string, in *Input, c02, c11 bool, each func(r *StepResult)) 
 	defer w.Close()
 	or := NewOracle()
 	or.StrictHost = in.StrictHost
+	or.SortBy = in.SortBy
 	for i := range in.Steps {
 		obs := w.Apply(&in.Steps[i])
 		f := or.Check(&in.Steps[i], obs, c02, c11)
